@@ -7,12 +7,14 @@
 From Cassis Require Import Base Ids.
 Open Scope Z_scope.
 
-Inductive start := StartEmpty | StartDoc (d : doc).
+(* StartDocViews d vs: a JSON document whose %VIEWS section declares the views vs (in that order) for which it holds
+   no Sofa feature structure; the reader creates them itself (Ids.load_doc_views) *)
+Inductive start := StartEmpty | StartDoc (d : doc) | StartDocViews (d : doc) (vs : list string).
 Record stepobs := mkSO { so_snap : list (label * option Z); so_sofas : list sofa; so_obs : obs }.
 Record case := mkCase { c_start : start; c_first : stepobs; c_hist : list op; c_obs : list stepobs }.
 
 Definition start_state (x : start) : st :=
-  match x with StartEmpty => init_empty | StartDoc d => load_doc d end.
+  match x with StartEmpty => init_empty | StartDoc d => load_doc d | StartDocViews d vs => load_doc_views d vs end.
 
 Definition optz_eqb (a b : option Z) : bool :=
   match a, b with Some x, Some y => x =? y | None, None => true | _, _ => false end.
@@ -50,7 +52,8 @@ Definition inv2b (s : st) : bool :=
 Definition doc_okb (o : obs) : bool :=
   match o with ODoc f sf => znodupb (map s_id sf ++ map fst f) && znodupb (map s_num sf) | _ => true end.
 
-Definition start_okb (x : start) : bool := match x with StartEmpty => true | StartDoc d => wf_docb d end.
+Definition start_okb (x : start) : bool :=
+  match x with StartEmpty => true | StartDoc d => wf_docb d | StartDocViews d _ => wf_docb d end.
 Definition premises (c : case) : bool := start_okb (c_start c) && hist_okb (start_state (c_start c)) (c_hist c).
 
 (* `ok` says that the premises held so far (well-formed start, forced_clearb at every serialisation) *)
